@@ -103,8 +103,6 @@ theorem path_agreement (cfg : Cfg) {t : TCfg} (ht : t.Ok) {i : Info} {stride bit
 /-- `next_frame` on a frame that has not been consumed yet is `frameInto` -/
 theorem nextFrameBuf_open (cfg : Cfg) {t : TCfg} {r : R} (buf : Bytes) (hI : Inv t r) (hcaf : r.sub.caf = false) :
     nextFrameBuf cfg t r buf = frameInto cfg t r buf := by
-  unfold nextFrameBuf
-  rw [if_neg (by have := (hI.live hcaf).1; omega), hcaf]
-  rfl
+  exact nextFrameBuf_inside cfg t r buf (by have := (hI.live hcaf).1; omega) hcaf
 
 end Png.Reader
